@@ -210,12 +210,18 @@ func (p *simPacer) Rate(time.Duration) float64 { return 1 }
 
 var errSimTargeter = errors.New("sim: targeter failure")
 
+const unbuildableTarget = int64(1) << 40 // flag on the value the controller releases a targeter call with
+
 func simTargeter(t *vegeta.Target) error {
 	v, _ := simrt.Park(kTarget, 0, 0, 0, 0, nil)
 	if v < 0 {
 		return errSimTargeter
 	}
 	t.Method = "GET"
+	if v&unbuildableTarget != 0 {
+		v &^= unbuildableTarget
+		t.Method = "GE T" // net/http refuses to build a request with it
+	}
 	t.URL = "http://sim.test/h/" + strconv.FormatInt(v, 10)
 	t.Body = nil
 	t.Header = http.Header{"X-Hit": []string{strconv.FormatInt(v, 10)}}
